@@ -1004,6 +1004,21 @@ def _to_copy(m, func, args, kwargs):
             out.copy_(fixed.to(out.dtype))
         m.clear(out)
         return out
+    if out.dtype.is_floating_point and src.dtype.is_floating_point and out.dtype != src.dtype and \
+            torch.finfo(out.dtype).eps > torch.finfo(src.dtype).eps and any(x is not None for x in ts):
+        # symbolic data cast to a LOWER floating-point precision inside the code under test: invisible over the reals, recorded so
+        # that harnesses can state "no precision-reducing cast of the caller's data" as an obligation
+        f_, where = sys._getframe(1), None
+        for _ in range(60):
+            if f_ is None:
+                break
+            fn_ = f_.f_code.co_filename
+            if '/pypose/' in fn_ and '/verif/' not in fn_:
+                where = '%s:%s' % (fn_.split('/pypose/', 1)[1], f_.f_code.co_qualname)
+                break
+            f_ = f_.f_back
+        if where is not None:
+            m.ctx.downcasts = getattr(m.ctx, 'downcasts', []) + ['%s -> %s in pypose/%s' % (src.dtype, out.dtype, where)]
     if out.dtype.is_floating_point:
         ts = [None if x is None else to_real(x) for x in ts]
     elif out.dtype == torch.bool:
